@@ -990,7 +990,9 @@ def run_shard(ctx, p):
     from tdv.gen import lis as glis
     for k in range(p.get('n_lis_gen', 0)):
         rng = ctx.sub_rng('lis-gen', k)
-        data, fm = glis.random_file(rng, allow_be=False, two_files_p=0.3, concurrent_p=0.1)
+        # records without a presentation of their own (table dump, picture, operator input ... shown as a hex dump) among the others
+        data, fm = glis.random_file(rng, allow_be=False, two_files_p=0.3, concurrent_p=0.1,
+                                    profile={'misc_types': [47, 42, 1, 65, 85, 86, 95, 96, 137, 232, 224], 'misc_between_p': 0.3, 'eof_marker_p': 0.1})
         mut, n = H.mutate_printable(rng, data, nmut=rng.choice([0, 3, 10, 40]), alphabet=rng.choice([b'<>&"\'', b'<>&"\'\x01\x07\x7f', b'<&-->', b'\xe9\xff<&']),
                                     keep=(b'TYPE', b'MNEM', b'FILM', b'PRES', b'CONS'))
         lis_documents(ctx, 'generated LIS (%s)' % fm.layout.describe(), mut, 100 + k, cap, ['lis:generated', 'lis:generated-mutations-%d' % n], hostile=n > 0)
